@@ -186,4 +186,159 @@ theorem gather_perm {α : Type} {ord₁ ord₂ : Entries κ (List α)} (hp : ord
 theorem covered_perm {ord₁ ord₂ : Entries κ ν} (hp : ord₁.Perm ord₂) (p : κ → Bool) :
     covered ord₁ p = covered ord₂ p := hp.any_eq
 
+/-! ### collect then sort (nilCheckWrite) -/
+
+omit [DecidableEq κ] in
+theorem keys_put (m : Entries κ ν) (k : κ) (v : ν) : keys (put m k v) = k :: keys m := rfl
+
+/-- closed form of one pass: the entries that are new and covered, in iteration order -/
+def picked {ν : Type} (cov : String → Bool) (ord : Entries String ν) (c : Coll ν) : Entries String ν :=
+  ord.filter (fun e => !(keys c.data).contains e.1 && cov e.1)
+
+theorem collectStep_keep {ν : Type} (cov : String → Bool) (c : Coll ν) (e : String × ν)
+    (h : (!(keys c.data).contains e.1 && cov e.1) = false) : collectStep cov c e = c := by
+  unfold collectStep
+  cases h1 : (keys c.data).contains e.1 with
+  | true => rfl
+  | false =>
+    cases h2 : cov e.1 with
+    | false => rfl
+    | true => rw [h1, h2] at h; cases h
+
+theorem collectStep_pick {ν : Type} (cov : String → Bool) (c : Coll ν) (e : String × ν)
+    (h : (!(keys c.data).contains e.1 && cov e.1) = true) :
+    collectStep cov c e = { list := c.list ++ [e.1], data := put c.data e.1 e.2 } := by
+  unfold collectStep
+  cases h1 : (keys c.data).contains e.1 with
+  | true => rw [h1] at h; cases h
+  | false =>
+    cases h2 : cov e.1 with
+    | false => rw [h1, h2] at h; cases h
+    | true => rfl
+
+theorem collect_eq {ν : Type} (cov : String → Bool) :
+    ∀ (ord : Entries String ν) (c : Coll ν), (keys ord).Nodup →
+      collect cov ord c = { list := c.list ++ keys (picked cov ord c), data := (picked cov ord c).reverse ++ c.data } := by
+  intro ord
+  induction ord with
+  | nil => intro c _; simp [collect, picked, keys]
+  | cons e ord ih =>
+    intro c hn
+    have hn' : e.1 ∉ keys ord ∧ (keys ord).Nodup := by
+      simpa [keys, List.nodup_cons] using hn
+    have hfold : collect cov (e :: ord) c = collect cov ord (collectStep cov c e) := by
+      simp [collect]
+    rw [hfold, ih _ hn'.2]
+    cases hb : (!(keys c.data).contains e.1 && cov e.1) with
+    | false =>
+      rw [collectStep_keep cov c e hb]
+      have : picked cov (e :: ord) c = picked cov ord c := by
+        simp only [picked, List.filter_cons, hb, Bool.false_eq_true, ↓reduceIte]
+      rw [this]
+    | true =>
+      rw [collectStep_pick cov c e hb]
+      -- later entries have other keys, so their "already present" test is unchanged
+      have hp : picked cov ord { list := c.list ++ [e.1], data := put c.data e.1 e.2 } = picked cov ord c := by
+        simp only [picked]
+        apply List.filter_congr
+        intro x hx
+        have hne : x.1 ≠ e.1 := fun h => hn'.1 (h ▸ (List.mem_map_of_mem (f := (·.1)) hx))
+        simp [keys_put, List.contains_cons, hne]
+      have hc : picked cov (e :: ord) c = e :: picked cov ord c := by
+        simp only [picked, List.filter_cons, hb, ↓reduceIte]
+      rw [hp, hc]
+      simp [keys, put]
+
+theorem sortStrings_perm {l₁ l₂ : List String} (hp : l₁.Perm l₂) : sortStrings l₁ = sortStrings l₂ := by
+  simp only [sortStrings]
+  have ht : ∀ (a b c : String), decide (a ≤ b) = true → decide (b ≤ c) = true → decide (a ≤ c) = true := by
+    intro a b c h1 h2
+    simp only [decide_eq_true_eq] at *
+    exact String.le_trans h1 h2
+  have htot : ∀ (a b : String), (decide (a ≤ b) || decide (b ≤ a)) = true := by
+    intro a b
+    simp only [Bool.or_eq_true, decide_eq_true_eq]
+    exact String.le_total a b
+  apply List.Perm.eq_of_pairwise (le := fun a b => decide (a ≤ b) = true)
+  · intro a b _ _ h1 h2
+    simp only [decide_eq_true_eq] at h1 h2
+    exact String.le_antisymm h1 h2
+  · exact List.pairwise_mergeSort ht htot l₁
+  · exact List.pairwise_mergeSort ht htot l₂
+  · exact (List.mergeSort_perm l₁ _).trans (hp.trans (List.mergeSort_perm l₂ _).symm)
+
+/-- two executions of nilCheckWrite are *equivalent* when they hold the same paths up to order and the same
+    path ↦ type binding -/
+structure CollEquiv {ν : Type} (c d : Coll ν) : Prop where
+  list : c.list.Perm d.list
+  keysP : (keys c.data).Perm (keys d.data)
+  nodup : (keys c.data).Nodup
+  get : ∀ k, get c.data k = get d.data k
+
+theorem collect_equiv {ν : Type} (cov : String → Bool) {ord₁ ord₂ : Entries String ν} (hp : ord₁.Perm ord₂)
+    (hn : (keys ord₁).Nodup) {c d : Coll ν} (h : CollEquiv c d) :
+    CollEquiv (collect cov ord₁ c) (collect cov ord₂ d) := by
+  have hn₂ := keys_nodup_perm hp hn
+  rw [collect_eq cov ord₁ c hn, collect_eq cov ord₂ d hn₂]
+  -- the same entries are picked, up to order
+  have hpick : (picked cov ord₁ c).Perm (picked cov ord₂ d) := by
+    have : picked cov ord₂ d = ord₂.filter (fun e => !(keys c.data).contains e.1 && cov e.1) := by
+      simp only [picked]
+      apply List.filter_congr
+      intro x _
+      have : (keys d.data).contains x.1 = (keys c.data).contains x.1 := by
+        rw [Bool.eq_iff_iff, List.contains_iff_mem, List.contains_iff_mem]
+        exact (h.keysP.mem_iff).symm
+      rw [this]
+    rw [this]
+    exact hp.filter _
+  have hsub : (picked cov ord₁ c).Sublist ord₁ := List.filter_sublist
+  have hpn : (keys (picked cov ord₁ c)).Nodup := by
+    unfold keys at *; exact (hsub.map (fun x => x.1)).nodup hn
+  have hdisj : ∀ k, k ∈ keys (picked cov ord₁ c) → k ∉ keys c.data := by
+    intro k hk
+    change k ∈ List.map (fun x => x.1) (picked cov ord₁ c) at hk
+    rw [List.mem_map] at hk
+    obtain ⟨x, hx, rfl⟩ := hk
+    have hx2 := (List.mem_filter.mp hx).2
+    intro hmem
+    have : (keys c.data).contains x.1 = true := List.contains_iff_mem.mpr hmem
+    rw [this] at hx2
+    cases hx2
+  refine ⟨?_, ?_, ?_, ?_⟩
+  · exact h.list.append (by unfold keys; exact hpick.map _)
+  · simp only [keys, List.map_append, List.map_reverse]
+    refine List.Perm.append ?_ h.keysP
+    exact (List.reverse_perm _).trans ((hpick.map _).trans (List.reverse_perm _).symm)
+  · simp only [keys, List.map_append, List.map_reverse]
+    rw [List.nodup_append]
+    refine ⟨?_, h.nodup, ?_⟩
+    · exact (List.Perm.nodup_iff (List.reverse_perm _)).mpr hpn
+    · intro a ha b hb hab
+      subst hab
+      exact hdisj a (by simpa [keys] using ha) hb
+  · intro k
+    rw [get_append, get_append, h.get k]
+    have hrp : (picked cov ord₁ c).reverse.Perm (picked cov ord₂ d).reverse :=
+      (List.reverse_perm _).trans (hpick.trans (List.reverse_perm _).symm)
+    have hrn : (keys (picked cov ord₁ c).reverse).Nodup := keys_nodup_perm (List.reverse_perm _).symm hpn
+    rw [get_perm hrp hrn]
+
+/-- several passes; `ps` lists, per pass, the cover test and the two iteration orders of the two executions -/
+theorem passes_equiv {ν : Type} :
+    ∀ (ps : List ((String → Bool) × Entries String ν × Entries String ν)),
+      (∀ p ∈ ps, p.2.1.Perm p.2.2 ∧ (keys p.2.1).Nodup) →
+      ∀ (c d : Coll ν), CollEquiv c d →
+        CollEquiv ((ps.map (fun p => (p.1, p.2.1))).foldl (fun c p => collect p.1 p.2 c) c)
+                  ((ps.map (fun p => (p.1, p.2.2))).foldl (fun c p => collect p.1 p.2 c) d) := by
+  intro ps
+  induction ps with
+  | nil => intro _ c d hcd; exact hcd
+  | cons p ps ih =>
+    intro h c d hcd
+    simp only [List.map_cons, List.foldl_cons]
+    apply ih (fun q hq => h q (List.mem_cons_of_mem _ hq))
+    have hp := h p (List.mem_cons_self ..)
+    exact collect_equiv _ hp.1 hp.2 hcd
+
 end ShootVerif.DetOrder
